@@ -112,6 +112,7 @@ func (c *collector) containsAll(v ssa.Value) (bool, string) {
 		}
 		c.depth++
 		defer func() { c.depth-- }()
+		inner := ""
 		for _, ret := range returnsOf(cal) {
 			if len(ret.Results) == 0 {
 				return false, "no result"
@@ -120,8 +121,9 @@ func (c *collector) containsAll(v ssa.Value) (bool, string) {
 			if !ok {
 				return false, shortName(cal) + ": " + why
 			}
+			inner = why
 		}
-		return true, "built by " + shortName(cal)
+		return true, "built by " + shortName(cal) + " (" + inner + ")"
 	case *ssa.Phi:
 		return c.accumulator(x.Parent(), v, nil, nil)
 	case *ssa.UnOp:
@@ -141,6 +143,38 @@ func (c *collector) containsAll(v ssa.Value) (bool, string) {
 	case *ssa.Parameter:
 		if c.paramComplete {
 			return true, "the parameter " + x.Name()
+		}
+		// a helper that is handed the list (writeNotesPart(notes)): complete if the argument is at
+		// every call site that passes one (nil = the initial, empty part)
+		if h := x.Parent(); h != nil && c.depth < 3 {
+			pi := paramIndex(h, x)
+			sites, okAll, why := 0, true, ""
+			c.depth++
+			for caller := range c.p.callersIndex()[h] {
+				allInstrs(caller, func(in ssa.Instruction) {
+					call, ok := in.(ssa.CallInstruction)
+					if !ok || staticCallee(call) != h || pi >= len(call.Common().Args) {
+						return
+					}
+					a := call.Common().Args[pi]
+					if isNilConst(a) {
+						return
+					}
+					sites++
+					if o, w := c.containsAll(a); !o {
+						okAll, why = false, w
+					} else if why == "" {
+						why = w
+					}
+				})
+			}
+			c.depth--
+			if sites > 0 && okAll {
+				return true, "argument of " + shortName(h) + " (" + why + ")"
+			}
+			if sites > 0 {
+				return false, why
+			}
 		}
 	case *ssa.MakeSlice, *ssa.Const:
 		return false, "an empty slice"
@@ -384,6 +418,66 @@ func sliceOfPtrTo(t types.Type, pkg, name string) bool {
 	return typeIs(sl.Elem(), pkg, name)
 }
 
+// freshObject: v is an allocation made here, or the result of a module constructor all of whose
+// returns are allocations (newNumberingRoot()).
+func freshObject(p *Program, v ssa.Value) bool {
+	switch x := v.(type) {
+	case *ssa.Alloc:
+		return true
+	case *ssa.Call:
+		cal := staticCallee(x)
+		if cal == nil || !p.inModule(cal) || len(cal.Blocks) == 0 {
+			return false
+		}
+		for _, ret := range returnsOf(cal) {
+			if len(ret.Results) != 1 {
+				return false
+			}
+			if _, ok := stripLoads(ret.Results[0]).(*ssa.Alloc); !ok {
+				return false
+			}
+		}
+		return true
+	}
+	return false
+}
+
+// readsRegistry: g (or a function it statically reaches) ranges over a map whose values are *elem —
+// the registry the part is regenerated from.
+func readsRegistry(p *Program, g *ssa.Function, elem string) bool {
+	found := false
+	// the list is handed in by the caller (completeness is then decided at the call sites)
+	for _, par := range topLevel(g).Params {
+		if sl, ok := par.Type().Underlying().(*types.Slice); ok {
+			if n := namedOf(sl.Elem()); n != nil && n.Obj().Name() == elem {
+				return true
+			}
+		}
+	}
+	fs := []*ssa.Function{g}
+	for h := range p.staticReach(g) {
+		fs = append(fs, h)
+	}
+	for _, f := range fs {
+		allInstrs(f, func(in ssa.Instruction) {
+			if rg, ok := in.(*ssa.Range); ok {
+				if mt, ok := rg.X.Type().Underlying().(*types.Map); ok {
+					if n := namedOf(mt.Elem()); n != nil && n.Obj().Name() == elem {
+						found = true
+					}
+				}
+			}
+			// the style registry is read through GetAllStyles()
+			if c, ok := in.(*ssa.Call); ok && elem == "Style" {
+				if cal := staticCallee(c); cal != nil && cal.Name() == "GetAllStyles" {
+					found = true
+				}
+			}
+		})
+	}
+	return found
+}
+
 func rulePartFromRegistry(only ...string) func(r *Run) {
 	return func(r *Run) {
 		p := r.P
@@ -401,18 +495,27 @@ func rulePartFromRegistry(only ...string) func(r *Run) {
 				}
 			}
 			want++
-			fn := r.mustFunc(pkgDoc, s.Fn)
-			if fn == nil {
-				continue
-			}
-			// the values stored into Owner.Field of a struct built in fn
+			// the function that fills the marshalled struct: the recorded one, its private helpers — or,
+			// when the part writing was reorganised (writeNotesPart shared by both note kinds,
+			// marshalStylesPart shared with an accessor), whichever function stores a slice of the
+			// sink's element type into a struct it builds for marshalling
 			var vals []ssa.Value
 			var pos token.Pos
 			var accAl *ssa.Alloc
 			var accF *types.Var
-			// (the struct may be built in a private helper that receives the list as a parameter:
-			// the value is then the argument at the helper's call sites inside the group)
-			group := helperGroup(p, fn)
+			var fn *ssa.Function
+			reader := buildReaderModel(p)
+			cl := map[*ssa.Function]bool{}
+			for _, c := range discoverClones(p, pkgDoc) {
+				cl[c.Fn] = true
+			}
+			var scope []*ssa.Function
+			for _, g := range p.ModFuncs() {
+				if g.Pkg != nil && g.Pkg.Pkg.Path() == pkgDoc && !reader.IsReader[topLevel(g)] && !cl[topLevel(g)] {
+					scope = append(scope, g)
+				}
+			}
+			group := scope
 			forEachInstrFn(group, func(g *ssa.Function, in ssa.Instruction) {
 				st, ok := in.(*ssa.Store)
 				if !ok {
@@ -429,25 +532,34 @@ func rulePartFromRegistry(only ...string) func(r *Run) {
 						return
 					}
 				}
+				if !freshObject(p, stripLoads(base)) {
+					return
+				}
+				// initialisation of an empty part (only the separator notes / no entries) is not a
+				// regeneration from the registry: skip stores of literal slices in functions that never
+				// read the registry maps
+				if !readsRegistry(p, g, s.Elem) {
+					return
+				}
+				if fn == nil {
+					fn = g
+				}
 				pos = st.Pos()
-				if prm, ok := st.Val.(*ssa.Parameter); ok && g != fn {
-					idx := -1
-					for i, q := range g.Params {
-						if q == prm {
-							idx = i
-						}
+				if prm, ok := st.Val.(*ssa.Parameter); ok {
+					// the list is handed to a helper that builds the struct: take the arguments at its call sites
+					idx := paramIndex(g, prm)
+					for caller := range p.callersIndex()[g] {
+						allInstrs(caller, func(in2 ssa.Instruction) {
+							if c, ok := in2.(ssa.CallInstruction); ok && staticCallee(c) == g && idx >= 0 && idx < len(c.Common().Args) {
+								vals = append(vals, c.Common().Args[idx])
+							}
+						})
 					}
-					forEachInstrFn(group, func(h *ssa.Function, in2 ssa.Instruction) {
-						_ = h
-						if c, ok := in2.(ssa.CallInstruction); ok && staticCallee(c) == g && idx >= 0 && idx < len(c.Common().Args) {
-							vals = append(vals, c.Common().Args[idx])
-						}
-					})
 					return
 				}
 				vals = append(vals, st.Val)
-				if al, ok := stripLoads(base).(*ssa.Alloc); ok && g == fn {
-					accAl, accF = al, fv
+				if al, ok := stripLoads(base).(*ssa.Alloc); ok {
+					accAl, accF, fn = al, fv, g
 				}
 			})
 			if len(vals) == 0 {
